@@ -5,6 +5,7 @@ import OFModel.Config.IO
 import OFModel.Config.Webvis
 import OFModel.Config.REST
 import OFModel.Config.Util
+import OFModel.Config.MQTTOut
 open Lean Driver OF.Config
 namespace Driver.C11
 
@@ -167,6 +168,7 @@ def normalizeClass (cls : String) (env : Env) (c : Dict) : R (Except Err Dict) :
   | "Webvis" => return normalizeWebvis env c
   | "Recorder" => return normalizeRecorder env c
   | "Util" => return normalizeUtil env c
+  | "MQTTOut" => return normalizeMQTTOut env c
   | "REST" => return normalizeREST true env c
   | "REST:pinned" => return normalizeREST false env c
   | _ => throw s!"class {cls} is not modelled"
